@@ -109,3 +109,53 @@ def sa_version_count(d):
         if c is None or c + 20 > cap:
             over.append(i)
     return bool(over) and over == det.get('overflow_symbols')
+
+
+@classifier('verbose-8-size-9')
+def verbose_8_size_9(d):
+    """C11: exactly the module (8, size-9) of a QR symbol (a data module) is reported / coloured as a format
+    module of the same darkness; nothing else is wrong in that execution."""
+    det = d['detail']
+    size = det.get('size')
+    if not isinstance(size, int) or size < 21:
+        return False
+    if d['kind'] == 'verbose-type':
+        cells = det['cells']
+        if det['n_modules'] != 1 or not cells:
+            return False
+        return all((r, c) == (8, size - 9) and got in (14, 14 << 8) and want in (4, 4 << 8)
+                   and bool(got >> 8) == bool(want >> 8) for r, c, got, want in cells)
+    if d['kind'] == 'colourful-pixel-colour':
+        mods = det.get('modules') or []
+        if det.get('n_modules') != 1 or len(mods) != 1:
+            return False
+        r, c, t, px = mods[0]
+        if (r, c) != (8, size - 9) or t not in (4, 4 << 8):
+            return False
+        fmt = det['cmap_format'][str(14 << 8 if t >> 8 else 14)]
+        if fmt is None or fmt[3] == 0:
+            return px[3] == 0
+        return tuple(px[:3]) == tuple(fmt[:3]) and abs(px[3] - fmt[3]) < 1
+    if d['kind'] == 'colourful-cell-colour':
+        if det.get('n_cells') != 1:
+            return False
+        r, c, top, exp = det['first'][0]
+        b = det['border_used']
+        if (r - b, c - b) != (8, size - 9):
+            return False
+        # the expected colour is the data colour; what was painted must be the format colour of the same darkness
+        from vmon import outoracle
+        for dark in (False, True):
+            data_c = det['cmap_data'][str(4 << 8 if dark else 4)]
+            fmt_c = det['cmap_format'][str(14 << 8 if dark else 14)]
+            same_exp = (exp is None and data_c is None) or (exp is not None and data_c is not None and list(exp) == list(data_c))
+            if not same_exp:
+                continue
+            if fmt_c is None or fmt_c[3] == 0:
+                if top is None:
+                    return True
+                continue
+            if top is not None and outoracle.svg_color_matches(top[1], top[2], fmt_c):
+                return True
+        return False
+    return False
